@@ -363,7 +363,7 @@ def oracle(case):
     px = [[i, j, [r["tab"][(i, j)][c] for c in cols_req]] for (i, j) in keys]
     off = [sum(1 for (i, _) in keys if i < b) for b in range(n + 1)]
     exp = {"symm": r["symm"], "cols": [[c, r["bits"][c]] for c in cols_req], "off": off, "px": px,
-           "nnz": len(px)}
+           "nnz": len(px), "bins": G.expected_bins(r["ax"])}
     if "count" in cols_req:
         if agg["count"] == "sum":
             # "its recorded total is the sum of the input totals" (leaves of the merge tree, with multiplicity)
@@ -762,6 +762,137 @@ def agg_cases(rng, thorough):
     return cs
 
 
+def first_leaf(case):
+    nd = case.get("tree") or list(case.get("order") or range(len(case["inputs"])))
+    while not isinstance(nd, int):
+        nd = nd[0]
+    return nd
+
+
+# --------------------------------------------------------------------- history pass: state carried between calls
+# (the dtypes dict of the caller used to be mutated by merge_coolers: repaired by dd39f70, kept below as a regression step)
+
+
+class _RawOf:
+    """adapter for model_expr: the model gets what is in the (rewritten) files NOW"""
+    def __init__(self, raws):
+        self.raws = raws
+
+    def input_raw(self, inp):
+        return self.raws[canon(inp)]
+
+
+def history_steps():
+    """ONE process, the SAME input URIs / the SAME output path / the SAME argument objects across consecutive calls, the
+    files behind the URIs rewritten in between (same and different bin table, nnz, dtypes; coolers as groups of one file)"""
+    c2 = [("count", 32), ("x", 16)]
+    c64 = [("count", 64), ("x", 16)]
+    t1 = [(0, 1, [3]), (1, 1, [2]), (2, 3, [1])]
+    t2 = [(0, 1, [1]), (1, 3, [4])]
+    t3 = [(0, 0, [5]), (0, 1, [1]), (0, 3, [2]), (1, 1, [1]), (1, 2, [6]), (2, 2, [2]), (3, 3, [9])]
+    t4 = [(0, 2, [7]), (1, 1, [1]), (1, 2, [1]), (2, 3, [3]), (3, 3, [1])]
+    t6a = [(0, 5, [1]), (2, 2, [2]), (4, 5, [3]), (5, 5, [4])]
+    t6b = [(0, 5, [2]), (1, 1, [5]), (4, 4, [1])]
+    x1 = [(0, 1, [3, 5]), (1, 2, [5, -2])]
+    x2 = [(0, 1, [4, 6]), (2, 2, [7, 9])]
+    S = []
+    # ---- plain files in0/in1 (+ the same list object of URIs, the same output path)
+    S.append(dict(slot="files", inputs=[inp("A4", True, C32, t1), inp("A4", True, C32, t2)], mergebuf=2))
+    S.append(dict(slot="files", inputs=None, mergebuf=2, seq="tuple"))                       # nothing rewritten, same objects again
+    S.append(dict(slot="files", inputs=[inp("A4", True, C32, t3), inp("A4", True, C32, t4)], mergebuf=2))      # other nnz, same names and mergebuf
+    S.append(dict(slot="files", inputs=[inp("V4", True, C32, t1), inp("V4", True, C32, t4)], mergebuf=2))      # other bin table, same nbins
+    S.append(dict(slot="files", inputs=[inp("A6", True, C32, t6a), inp("A6", True, C32, t6b)], mergebuf=2))    # other nbins
+    S.append(dict(slot="files", inputs=[inp("A4len", False, C32, t2), inp("A4len", False, C32, [(3, 0, [2])])], mergebuf=2))   # other lengths, other storage mode
+    S.append(dict(slot="files", inputs=[None, inp("A4", False, C32, t1)], mergebuf=2))       # only in1 rewritten: now incompatible with in0
+    S.append(dict(slot="files", inputs=[inp("A4", True, C32, t1), inp("A4", True, C32, t2)], mergebuf=2, via="cli"))
+    S.append(dict(slot="files", inputs=[inp("A4", True, C32, t4), None], mergebuf=2, via="cli"))
+    # ---- the same columns list / agg dict / dtypes dict OBJECTS for consecutive calls over rewritten inputs
+    S.append(dict(slot="files", inputs=[inp("A4", True, c2, x1), inp("A4", True, c2, x2)], mergebuf=1,
+                  columns=["count", "x"], agg={"x": "max"}, dtypes={"x": 64}, objs="K1"))
+    S.append(dict(slot="files", inputs=[inp("A4", True, c2, x2), inp("A4", True, c2, x1)], mergebuf=1,
+                  columns=["count", "x"], agg={"x": "max"}, dtypes={"x": 64}, objs="K1"))    # same common dtypes: the carried entry is harmless
+    S.append(dict(slot="files", inputs=[inp("A4", True, c64, [(0, 1, [2 ** 40, 5])]), inp("A4", True, c64, x2)], mergebuf=1,
+                  columns=["count", "x"], agg={"x": "max"}, dtypes={"x": 64}, objs="K1", carried=True))   # count is int64 now
+    # ---- several coolers as groups of ONE file, plus in2
+    S.append(dict(slot="groups", inputs=[inp("A4", True, C32, t1), inp("A4", True, C32, t2), inp("A4", True, C32, t4)], mergebuf=1))
+    S.append(dict(slot="groups", inputs=[inp("A4", True, C32, t3), None, None], mergebuf=1))                  # one group rewritten
+    S.append(dict(slot="groups", inputs=None, mergebuf=3, seq="tuple"))
+    S.append(dict(slot="groups", inputs=[inp("B5", True, c2, [(0, 4, [1, 1]), (2, 2, [2, 2])]), inp("B5", True, c2, [(0, 4, [5, 5])]),
+                                         inp("B5", True, c2, [(1, 1, [1, 0]), (2, 2, [1, 1]), (4, 4, [3, 3])])], mergebuf=1, columns=["x", "count"]))
+    return S
+
+
+def history_pass(ctx, root):
+    import cooler
+    from click.testing import CliRunner
+    from cooler.cli import cli
+    hroot = os.path.join(root, "history")
+    os.makedirs(hroot, exist_ok=True)
+    multi = os.path.join(hroot, "multi.mcool")
+    slots = {"files": [os.path.join(hroot, "in0.cool"), os.path.join(hroot, "in1.cool")],
+             "groups": [multi + "::/g/a", multi + "::/g/b", os.path.join(hroot, "in2.cool")]}
+    out = os.path.join(hroot, "out.cool")
+    current = {k: [None] * len(v) for k, v in slots.items()}      # what is stored behind each URI now
+    objs = {}
+    done = []
+    for step_no, st in enumerate(history_steps()):
+        uris = slots[st["slot"]]                                  # the SAME list object every time
+        try:
+            with warnings.catch_warnings():
+                warnings.simplefilter("ignore")
+                with G.time_limit(30.0):
+                    for i, new in enumerate(st["inputs"] or []):
+                        if new is None:
+                            continue
+                        mode = "a" if ("::" in uris[i] and os.path.exists(multi)) else "w"
+                        G.write_cooler(uris[i], new["ax"], new["symm"], [tuple(c) for c in new["cols"]], new["px"], mode=mode)
+                        current[st["slot"]][i] = new
+                    ins = list(current[st["slot"]])
+                    case = mk(ins, st["mergebuf"], via=st.get("via", "api"), columns=st.get("columns"), dtypes=st.get("dtypes"), agg=st.get("agg"))
+                    case["history_step"] = step_no
+                    if st.get("carried"):
+                        case["dtypes_object_reused_from_narrower_merge"] = True
+                    raws = {canon(i_): G.read_raw(u, [c for c, _ in i_["cols"]]) for i_, u in zip(ins, uris)}
+                    seq = tuple(uris) if st.get("seq") == "tuple" else uris
+                    if st.get("via") == "cli":
+                        _merge_cli(out, list(seq), case)
+                    else:
+                        kw = {}
+                        if st.get("objs"):        # the same columns / agg / dtypes objects as in the previous call of that key
+                            o = objs.setdefault(st["objs"], {"columns": list(st["columns"]), "agg": dict(st["agg"]),
+                                                             "dtypes": {c: G.np_dtype(b) for c, b in st["dtypes"].items()}})
+                            kw = {"columns": o["columns"], "agg": o["agg"], "dtypes": o["dtypes"]}
+                        elif st.get("columns"):
+                            kw["columns"] = tuple(st["columns"]) if step_no % 2 else list(st["columns"])
+                        snap = (list(seq), {k: (dict(v) if isinstance(v, dict) else list(v)) for k, v in kw.items()})
+                        cooler.merge_coolers(out, seq, mergebuf=st["mergebuf"], **kw)
+                        unchanged = snap == (list(seq), {k: (dict(v) if isinstance(v, dict) else list(v)) for k, v in kw.items()})
+                    want = case["columns"] if case.get("columns") is not None else ["count"]
+                    got = G.obs_of_raw(G.read_raw(out, want))
+                    if st.get("via") != "cli":
+                        got["caller_args_unchanged"] = unchanged      # D34 (repaired): the caller's dtypes dict was written to
+        except BaseException as e:  # noqa: BLE001
+            if isinstance(e, (KeyboardInterrupt, SystemExit)):
+                raise
+            got = G.classify(e)
+        done.append((case, raws, got))
+    exprs = [model_expr(_RawOf(raws), case) for case, raws, _ in done if modelled(case)]
+    mvals = iter(C.coq_eval(G.IMPORTS, exprs, tmpdir=ctx.tmp / "hist", jobs=2))
+    for case, raws, got in done:
+        exp, sig = oracle(case)
+        ctx.case(case, nontrivial=True, kind="history")
+        if isinstance(exp, dict) and case.get("via") != "cli":
+            exp["caller_args_unchanged"] = True
+        if modelled(case):
+            mod = G.parse_obs(next(mvals))
+            if isinstance(mod, dict):
+                mod["bins"] = G.expected_bins(case["inputs"][0]["ax"])
+                if case.get("via") != "cli":
+                    mod["caller_args_unchanged"] = True
+            ctx.compare("merge_coolers (history pass)", case, got, mod)
+        verdict(ctx, case, got, exp, sig)
+
+
 def nontrivial(case, exp):
     if exp == "refuse":
         return True
@@ -910,6 +1041,8 @@ def run(ctx):
             timeouts += 1
         if mo is not None:
             mod = G.parse_obs(mo)
+            if isinstance(mod, dict):
+                mod["bins"] = G.expected_bins(case["inputs"][first_leaf(case)]["ax"])     # theorem: the output carries the first input's axes
             if isinstance(mod, dict) and isinstance(exp, dict):
                 for k in ("kept", "bins_cols"):
                     if k in exp:
@@ -928,6 +1061,7 @@ def run(ctx):
             if canon(got) != canon(first) and not (isinstance(got, str) and isinstance(first, str)):
                 ctx.fail(case, {"differs from": grp[0][0].get("order") or grp[0][0].get("tree") or "flat", "got": got, "first": first}, None)
 
+    history_pass(ctx, ws.root)
     run_breakpoints(ctx)
     ctx.extra["scopes"] = {"merges": len(cases), "input_files": len(ws.cache)}
     ctx.exhaustive = thorough
